@@ -22,7 +22,7 @@ NOT_APPLICABLE = {
     "C19": "reflection-driven conversion is a pure function of (result, target type, bindings); panics on bad targets are covered by C15; " + NA_COMMON,
 }
 
-PENDING = {k: "not claimed yet: DESIGN.md plans a check for this property but it is not built in this commit" for k in ["C13", "C14", "C15", "C16", "C17", "C20"]}
+PENDING = {k: "not claimed yet: DESIGN.md plans a check for this property but it is not built in this commit" for k in ["C13", "C14", "C15", "C20"]}
 
 CHECKS = {
     "C09": dict(
@@ -35,6 +35,16 @@ CHECKS = {
         technique="deterministic simulation of the Parser seam: seeded event histories (incl. surplus end events, deep spines, same-prefix redeclaration) against a stack-machine reference model, plus a goroutine-stack ceiling fault (debug.SetMaxStack in child processes) on 10^5..3x10^6-event flat histories",
         text="A scripted user-supplied Parser feeds contract-conforming histories into store.CreateInMemory; the tree read back through the public Cursor API must equal a 40-line stack-machine model (shape, node identity, Pos unique/increasing in document order, Parent consistency, owned namespace nodes per in-scope prefix). The stack bound is decided under an injected stack ceiling that scales with nesting depth only.",
         note="Seeded sampling of histories (<= 2000 events, depth <= 200) plus seven long flat shapes; the root's own Parent() and the order among namespace nodes are not constrained."),
+    "C16": dict(
+        engine="stream-json", category="fault_enumeration", design_ref="§6.2",
+        technique="deterministic simulation of the io.Reader seam: seeded delivery schedules, exhaustive truncation and read-error offsets per generated text, sampled code-point corruption; oracle = generated value tree + an independent strict RFC 8259 reader for faulted texts",
+        text="Every generated sequence of JSON values is pushed through ReadJson under the reference delivery, drawn chunkings, every truncation offset, a read error at every offset and sampled corruptions. Clean and still-valid texts must map to the documented #obj/#arr tree (member order, duplicate and odd keys, one text node per scalar, shortest round-tripping numerals); malformed texts (as decided by the independent reader) must produce an error, never a shorter tree.",
+        note="Trusts the harness's own strict JSON reader (cross-checked against the generator on every clean input). Not judged: lone surrogate escapes, numbers outside the double range, adjacent top-level values without white space, empty input."),
+    "C17": dict(
+        engine="stream-html", category="exploration", design_ref="§6.7",
+        technique="deterministic simulation of the io.Reader seam (delivery schedules, read errors, truncation, content corruption as tag-soup source) with a differential oracle: independent html.Parse + plain DOM walk",
+        text="Generated pages and their truncated/corrupted variants go through ReadHtml under drawn delivery schedules; every input that starts with a doctype must yield exactly the tree of golang.org/x/net/html walked by a plain recursion (local names, attributes minus xmlns declarations with prefixes stripped, text, comments, nothing skipped or duplicated, no namespaces); a failing reader must produce an error. Weakly in-family: the property is a pure function of the bytes reached through a stream seam (DESIGN §6.7).",
+        note="The reference is x/net/html itself, as the property states. Names carry at most one colon. Inputs without a leading doctype are only monitored for crashes."),
 }
 
 
@@ -68,6 +78,7 @@ def main():
         },
         "engines": [
             {"name": "stream", "path": "engines/stream", "serves_properties": ["C09", "C16", "C17"], "kind_free_text": "simulated io.Reader (delivery schedule + truncation/read-error/corruption faults) in front of the real readers"},
+            {"name": "stream-json/html", "path": "engines/stream", "serves_properties": ["C16", "C17"], "kind_free_text": "same simulated reader in front of ReadJson / ReadHtml"},
             {"name": "events", "path": "engines/events", "serves_properties": ["C10"], "kind_free_text": "scripted Parser histories + stack-ceiling fault in front of the real store"},
         ],
         "checks": checks,
